@@ -417,8 +417,58 @@ func runC15(c *ctx) {
 			}
 		}
 	}
+	// a count outside the bounds is reported at the declaration also when the item has another, unrelated error that does not end the item (a value out of range, not a token of the wrong kind);
+	// a variable in an array item or list counts as one element
+	type sized struct {
+		text   string
+		within bool
+		declAt smltext.Pos
+	}
+	var extra []sized
+	for _, d := range []struct {
+		typ, decl, body string
+		n          int // elements written
+		lo, hi     int // hi -1: unbounded
+	}{
+		{"U1", "[2]", "300", 1, 2, 2}, {"U1", "[1]", "300 1", 2, 1, 1}, {"I2", "[3..]", "1.5 2", 2, 3, -1}, {"B", "[..1]", "1 256 3", 3, 0, 1},
+		{"F4", "[2]", "1e99 1 2", 3, 2, 2}, {"A", "[5]", "\"ab\" 300", 3, 5, 5},
+		{"U1", "[5]", "x", 1, 5, 5}, {"U1", "[1]", "x", 1, 1, 1}, {"B", "[..1]", "1 2 v", 3, 0, 1}, {"B", "[3]", "1 2 v", 3, 3, 3}, {"F4", "[0]", "1.5 fv", 2, 0, 0},
+		{"I4", "[2..3]", "va vb vc vd", 4, 2, 3}, {"I4", "[2..3]", "va vb vc", 3, 2, 3}, {"BOOLEAN", "[2]", "T bv", 2, 2, 2}, {"BOOLEAN", "[3]", "T bv", 2, 3, 3},
+	} {
+		text := "S1F1 W H->E\n<" + d.typ + d.decl + " " + d.body + ">\n."
+		extra = append(extra, sized{text, d.n >= d.lo && (d.hi == -1 || d.n <= d.hi), smltext.Pos{Line: 2, Col: 2 + len(d.typ)}})
+	}
+	for _, d := range []struct {
+		decl, body string
+		n, lo, hi  int
+	}{
+		{"[3]", "<A x>", 1, 3, 3}, {"[1]", "<A x>", 1, 1, 1}, {"[1]", "<A \"a\"> <A \"b\"> v", 3, 1, 1}, {"[3]", "<A \"a\"> <A \"b\"> v", 3, 3, 3},
+		{"[2]", "<U1 300> <U1 1> <U1 2>", 3, 2, 2}, {"[..1]", "lv <L lv2> <B 1>", 3, 0, 1}, {"[2..]", "<L <F4[0] 1.5 fv>>", 1, 2, -1},
+	} {
+		text := "S1F1 W H->E\n<L" + d.decl + " " + d.body + ">\n."
+		extra = append(extra, sized{text, d.n >= d.lo && (d.hi == -1 || d.n <= d.hi), smltext.Pos{Line: 2, Col: 3}})
+	}
+	for _, e := range extra {
+		_, errs, _, o := smlParse(e.text)
+		c.NoteBulk(1, 1)
+		c.Class("sized-items-with-variables-or-a-second-error")
+		found := false
+		for _, er := range errs {
+			if p, t, ok := smltext.ParseDiag(er); ok && p == e.declAt && strings.Contains(t, "size") {
+				found = true
+			}
+		}
+		cs := c15Case{Op: "text", Kind: e.text}
+		if o.Panicked {
+			c.Violation("C15/parser-panicked", o.String(), cs)
+		} else if !e.within && !found {
+			c.Violation("C15/size-error-missing-at-the-declaration", fmt.Sprintf("text %q: count outside the declared bounds, errors %q (none at Ln %d, Col %d)", e.text, errs, e.declAt.Line, e.declAt.Col), cs)
+		} else if e.within && found {
+			c.Violation("C15/size-error-for-a-count-within-bounds", fmt.Sprintf("text %q: errors %q", e.text, errs), cs)
+		}
+	}
 	c15Direct(c)
-	c.Required = []string{"literal/within", "literal/outside", "literal/form=n", "literal/form=a..b", "literal/form=a..", "literal/form=..b", "asciivar/fill-accepted", "asciivar/fill-refused", "asciivar/inverted-bounds", "direct-fill", "zero-padded-bounds", "same-name-other-bounds"}
+	c.Required = []string{"literal/within", "literal/outside", "literal/form=n", "literal/form=a..b", "literal/form=a..", "literal/form=..b", "asciivar/fill-accepted", "asciivar/fill-refused", "asciivar/inverted-bounds", "direct-fill", "zero-padded-bounds", "same-name-other-bounds", "sized-items-with-variables-or-a-second-error"}
 }
 
 func replayC15(c *ctx, raw json.RawMessage) {
